@@ -1072,6 +1072,9 @@ func isConst(v ssa.Value) bool { _, ok := v.(*ssa.Const); return ok }
 // possibly copied to a local.
 // isTimestampOfPacket: v is pkt.Timestamp (possibly via a local copy).
 func isTimestampOfPacket(v ssa.Value) bool {
+	if argOfEveryCall(v, isTimestampOfPacket) {
+		return true
+	}
 	u, ok := v.(*ssa.UnOp)
 	if !ok || u.Op != token.MUL {
 		return false
@@ -1082,6 +1085,40 @@ func isTimestampOfPacket(v ssa.Value) bool {
 	}
 	f := core.FieldOfAddr(fa)
 	return f != nil && f.Name() == "Timestamp" && f.Pkg() != nil && f.Pkg().Path() == "github.com/pion/rtp"
+}
+
+// argOfEveryCall: v is a parameter of an unexported function that is only ever
+// called, and at every call site receives a value satisfying pred (the packet's
+// sequence number or timestamp handed to an extracted helper).
+func argOfEveryCall(v ssa.Value, pred func(ssa.Value) bool) bool {
+	prm, ok := v.(*ssa.Parameter)
+	if !ok || Cur == nil {
+		return false
+	}
+	fn := prm.Parent()
+	if fn == nil || fn.Parent() != nil || token.IsExported(fn.Name()) {
+		return false
+	}
+	idx := -1
+	for i, q := range fn.Params {
+		if q == prm {
+			idx = i
+		}
+	}
+	refs := Cur.RefsTo(fn)
+	if idx < 0 || len(refs) == 0 {
+		return false
+	}
+	for _, ref := range refs {
+		ci, isCall := ref.Instr.(*ssa.Call)
+		if !isCall || !ref.IsCall || idx >= len(ci.Call.Args) || ci.Parent() == fn {
+			return false
+		}
+		if !pred(stripConv(ci.Call.Args[idx])) {
+			return false
+		}
+	}
+	return true
 }
 
 // tsFields finds the uint32 decoder fields compared with pkt.Timestamp and,
@@ -1223,6 +1260,9 @@ func (m *decModel) tsEstablishedAt(p *core.Prog, fn *ssa.Function, at ssa.Instru
 }
 
 func isSeqNumOfPacket(v ssa.Value) bool {
+	if argOfEveryCall(v, isSeqNumOfPacket) {
+		return true
+	}
 	u, ok := v.(*ssa.UnOp)
 	if !ok || u.Op != token.MUL {
 		return false
@@ -1656,7 +1696,7 @@ func decoderRules(c *Ctx, prop string) {
 		short := strings.TrimPrefix(rel, "pkg/format/")
 		for _, f := range m.fieldList() {
 			stores := m.fields[f]
-			role, listed := fieldRoles[short+"."+f.Name()]
+			role, listed := fieldRoles[short+"."+core.FieldName(f)]
 			usageChain := m.isChainField(f)
 			if !listed {
 				// not in the reviewed table (a new or renamed field): the role is taken from usage — a
@@ -1666,18 +1706,18 @@ func decoderRules(c *Ctx, prop string) {
 				if usageChain {
 					role = "chain"
 				}
-				r.Observe("C07/ROLE-TABLE", short+"."+f.Name(), p.Pos(f.Pos()), "not in the reviewed role table; role "+role+" derived from usage")
+				r.Observe("C07/ROLE-TABLE", short+"."+core.FieldName(f), p.Pos(f.Pos()), "not in the reviewed role table; role "+role+" derived from usage")
 			}
 			if prop == "C07" {
 				// cross-check by usage: a chain must be joined into one byte string
-				r.Check(role != "chain" || usageChain, "C07/ROLE-TABLE", short+"."+f.Name(), p.Pos(f.Pos()), "role "+role+" agrees with usage", "table says chain but the field is never joined into one byte string")
+				r.Check(role != "chain" || usageChain, "C07/ROLE-TABLE", short+"."+core.FieldName(f), p.Pos(f.Pos()), "role "+role+" agrees with usage", "table says chain but the field is never joined into one byte string")
 			}
 			chain := role == "chain"
 			for _, s := range stores {
 				if s.kind != skGrow && s.kind != skTruncGrow {
 					continue
 				}
-				construct := fmt.Sprintf("%s %s append(%s)", short, fnShort(s.fn), f.Name())
+				construct := fmt.Sprintf("%s %s append(%s)", short, fnShort(s.fn), core.FieldName(f))
 				// distinguish several appends to the same field in one function by the branch they sit in
 				construct += " #" + appendOrdinal(stores, s)
 				pos := p.Pos(s.st.Pos())
@@ -1736,7 +1776,7 @@ func decoderRules(c *Ctx, prop string) {
 				// (a) no reuse of the backing array anywhere
 				for _, s := range stores {
 					if s.kind == skResetTrunc || s.kind == skTruncGrow {
-						r.Fail("C08/RETURN-NOREUSE", fmt.Sprintf("%s %s reuses %s", short, fnShort(s.fn), f.Name()), p.Pos(s.st.Pos()),
+						r.Fail("C08/RETURN-NOREUSE", fmt.Sprintf("%s %s reuses %s", short, fnShort(s.fn), core.FieldName(f)), p.Pos(s.st.Pos()),
 							fmt.Sprintf("field %s is handed to the caller as a Decode result, yet its backing array is kept and reused (%s): a later Decode overwrites a unit already returned", f.Name(), s.kind))
 					}
 				}
@@ -1745,7 +1785,7 @@ func decoderRules(c *Ctx, prop string) {
 					fn := ld.Parent()
 					isDrop := func(in ssa.Instruction) bool { k, ok := m.resetEvent(in, f); return ok && k == skResetNil }
 					found, path, _ := core.PathAvoiding(fn, ld, core.IsReturn, isDrop)
-					construct := fmt.Sprintf("%s %s returns %s", short, fnShort(fn), f.Name())
+					construct := fmt.Sprintf("%s %s returns %s", short, fnShort(fn), core.FieldName(f))
 					if found {
 						// a reuse-type reset on the path is reported under (a); report (b) only when there is no reset at all
 						isAny := func(in ssa.Instruction) bool { _, ok := m.resetEvent(in, f); return ok }
@@ -1783,7 +1823,7 @@ func decoderRules(c *Ctx, prop string) {
 							continue
 						}
 						ok, why := m.tsEstablishedAt(p, s.fn, s.st, T, 0)
-						r.Check(ok, "C07/TS-SYNC", fmt.Sprintf("%s %s grows %s, recorded in %s", short, fnShort(s.fn), f.Name(), T.Name()), p.Pos(s.st.Pos()), why, "the buffer grows but the recorded timestamp may not be the packet's: "+why)
+						r.Check(ok, "C07/TS-SYNC", fmt.Sprintf("%s %s grows %s, recorded in %s", short, fnShort(s.fn), core.FieldName(f), T.Name()), p.Pos(s.st.Pos()), why, "the buffer grows but the recorded timestamp may not be the packet's: "+why)
 					}
 				}
 			}
@@ -1887,7 +1927,39 @@ func (m *decModel) errResets(c *Ctx, short string, f *types.Var) {
 		}
 		sort.Slice(nonEmpty, func(i, j int) bool { return nonEmpty[i].to.Index < nonEmpty[j].to.Index })
 		for i, e := range nonEmpty {
-			avoid := func(in ssa.Instruction) bool {
+			var avoidAt func(in ssa.Instruction, depth int) bool
+			// helperCovers: in helper h (a method of the decoder called on the same receiver), every
+			// route from its entry to a return (errOnly: to a return with a non-nil error) passes a
+			// reset or an extension of the chain
+			helperCovers := func(h *ssa.Function, errOnly bool, depth int) bool {
+				if h == nil || h.Blocks == nil || depth > 2 || h.Signature.Recv() == nil {
+					return false
+				}
+				tgt := func(in ssa.Instruction) bool {
+					rt, ok := in.(*ssa.Return)
+					if !ok {
+						return false
+					}
+					if !errOnly {
+						return true
+					}
+					return len(rt.Results) > 0 && isErrorType(rt.Results[len(rt.Results)-1].Type()) && !isNilConst(rt.Results[len(rt.Results)-1])
+				}
+				found, _, _ := pathFromBlock(h.Blocks[0], tgt, func(in ssa.Instruction) bool { return avoidAt(in, depth+1) })
+				return !found
+			}
+			decoderHelper := func(in ssa.Instruction) *ssa.Function {
+				ci, ok := in.(*ssa.Call)
+				if !ok {
+					return nil
+				}
+				h := ci.Call.StaticCallee()
+				if h == nil || h == fn || h.Pkg != fn.Pkg || h.Signature.Recv() == nil || len(ci.Call.Args) == 0 || ci.Call.Args[0] != ssa.Value(fn.Params[0]) {
+					return nil
+				}
+				return h
+			}
+			avoidAt = func(in ssa.Instruction, depth int) bool {
 				if _, ok := m.resetEvent(in, f); ok {
 					return true
 				}
@@ -1897,14 +1969,51 @@ func (m *decModel) errResets(c *Ctx, short string, f *types.Var) {
 						return true
 					}
 				}
+				// a helper that resets or extends the chain on every one of its routes
+				if h := decoderHelper(in); h != nil && depth == 0 && helperCovers(h, false, depth) {
+					return true
+				}
+				return false
+			}
+			avoid := func(in ssa.Instruction) bool { return avoidAt(in, 0) }
+			// the error of a helper that discards the chain on each of its own refusals is not a
+			// refusal of this function: `return nil, err` with err the helper's error
+			var handledErr func(v ssa.Value, seen map[ssa.Value]bool) bool
+			handledErr = func(v ssa.Value, seen map[ssa.Value]bool) bool {
+				if seen[v] {
+					return true
+				}
+				seen[v] = true
+				switch x := v.(type) {
+				case *ssa.Phi:
+					for _, ed := range x.Edges {
+						if !handledErr(ed, seen) {
+							return false
+						}
+					}
+					return len(x.Edges) > 0
+				case *ssa.Extract:
+					if call, ok := x.Tuple.(*ssa.Call); ok {
+						if h := decoderHelper(call); h != nil {
+							return helperCovers(h, true, 0)
+						}
+					}
+				case *ssa.Call:
+					if h := decoderHelper(x); h != nil {
+						return helperCovers(h, true, 0)
+					}
+				}
 				return false
 			}
 			target := func(in ssa.Instruction) bool {
 				rt, ok := in.(*ssa.Return)
-				return ok && !isNilConst(rt.Results[len(rt.Results)-1])
+				if !ok || isNilConst(rt.Results[len(rt.Results)-1]) {
+					return false
+				}
+				return !handledErr(rt.Results[len(rt.Results)-1], map[ssa.Value]bool{})
 			}
 			found, path, at := pathFromBlock(e.to, target, avoid)
-			construct := fmt.Sprintf("%s %s refusals while %s is non-empty #%d", short, fnShort(fn), f.Name(), i+1)
+			construct := fmt.Sprintf("%s %s refusals while %s is non-empty #%d", short, fnShort(fn), core.FieldName(f), i+1)
 			if found {
 				pos := p.Pos(fn.Pos())
 				if at != nil {
